@@ -2,7 +2,7 @@
 # developer tool: take a sub-agent's seeded change from /tmp/seed2-<ID>, validate it independently,
 # run the property's check against it, archive it as seeded/<ID><suffix>.
 # usage: seed_round.sh <ID> <suffix>      e.g. seed_round.sh C07 c
-id=$1; suf=$2; src=/tmp/seed2-$id; name=$id$suf
+id=$1; suf=$2; src=${3:-/tmp/seed2}-$id; name=$id$suf
 [ -f $src/patch.diff ] || { echo "$name: no patch"; exit 1; }
 rm -rf /tmp/$name; cp -r $src /tmp/$name; rm -rf /tmp/$name/demo/target
 v=$(/verif/tools/seed_validate.sh /tmp/$name 2>&1 | tail -1)
